@@ -54,7 +54,10 @@ VAR = {"i": "vi", "s": "vs", "f": "vf", "a": "va"}
 SWITCHES = set()
 EXCLUDED = {}
 CONSUMERS = ["init", "assign", "field_assign", "fun_arg", "method_arg", "ctor_arg", "return", "return_explicit", "operand_left",
-             "operand_right", "method_receiver"]
+             "operand_right", "method_receiver"] + ["fun_arg_defaulted", "method_arg_defaulted", "ctor_arg_defaulted",
+                                                    "init_arg_defaulted", "ctor_first_field_assign", "ctor_second_field_assign",
+                                                    "ctor_branch_field_assign"]
+EXTRA_CONSUMERS = CONSUMERS[11:]
 NULL_SOURCES = ["none", "var", "call", "ifexpr_then", "ifexpr_else"]
 
 
@@ -71,7 +74,7 @@ def null_source(draw, t, kind):
     return "(if vb then %s else None)" % v
 
 
-def consumer(draw, c, t, value, nullable_target):
+def consumer(draw, c, t, value, nullable_target, null_value=False):
     """-> (defs, stmts) where `value` flows into a position of type T (or T? when nullable_target)."""
     ty = T[t] + ("?" if nullable_target else "")
     o = "o" if nullable_target else ""
@@ -97,6 +100,31 @@ def consumer(draw, c, t, value, nullable_target):
     if c == "return_explicit":
         other = draw(st.sampled_from(TVAL[t]))
         return ["def rf(rp: Int) -> %s =>" % ty, "    if rp > 0 then return %s" % value, "    %s" % other], ["rf(1)"]
+    dflt = "None" if nullable_target else TVAL[t][0]
+    if c == "fun_arg_defaulted":
+        return ["def fd(p0: Int, p: %s := %s) -> Int => p0" % (ty, dflt)], ["def res: Int := fd(1, %s)" % value]
+    if c == "method_arg_defaulted":
+        return ["class MD(def md: Int)", "    def fd(self, p0: Int, p: %s := %s) -> Int => p0" % (ty, dflt), "def vmd := MD(1)"], \
+            ["def res: Int := vmd.fd(1, %s)" % value]
+    if c == "ctor_arg_defaulted":
+        return ["class WD(def d0: Int, def d: %s := %s)" % (ty, dflt)], ["def res := WD(1, %s)" % value]
+    if c == "init_arg_defaulted":
+        return ["class WD", "    def d: %s" % ty, "    def __init__(self, p0: Int, p: %s := %s) =>" % (ty, dflt), "        self.d := p"], \
+            ["def res := WD(1, %s)" % value]
+    if c in ("ctor_first_field_assign", "ctor_second_field_assign", "ctor_branch_field_assign"):
+        # the value reaches the field inside an explicit constructor: as the assignment that establishes the field, as a later
+        # one, or as the first one on one of two paths; a nullable parameter `src` is one more source of null in there
+        head = ["class KC", "    def y: %s" % ty, "    def __init__(self, src: %s?, c: Bool) =>" % T[t]]
+        v = "src" if (nullable_target or null_value) and value != "None" and draw(st.integers(0, 3)) == 0 else value
+        if c == "ctor_first_field_assign":
+            body = ["        self.y := %s" % v]
+        elif c == "ctor_second_field_assign":
+            body = ["        self.y := %s" % TVAL[t][0], "        self.y := %s" % v]
+        else:
+            first = draw(st.booleans())
+            body = ["        if c then", "            self.y := %s" % (v if first else TVAL[t][0]), "        else",
+                    "            self.y := %s" % (TVAL[t][0] if first else v)]
+        return head + body, ["def res := KC(%s, True)" % draw(st.sampled_from(["None", NVAR[t], TVAL[t][0]]))]
     raise ValueError(c)
 
 
@@ -153,12 +181,13 @@ def _case(draw):
             src_kind = sk + ("_of_subtype" if widen_r else "")
             defs, stmts = [], ["def res: Int := %s.ma(1)" % s]
         elif c not in ("operand_left", "operand_right"):
-            defs, stmts = consumer(draw, c, t, s, False)
+            defs, stmts = consumer(draw, c, t, s, False, True)
         return {"src": WORLD + "\n".join(defs + sites.place(position, stmts)) + "\n", "direction": "reject", "consumer": c,
                 "source": src_kind, "type": T[t], "position": position, "expect": "err"}
     # accept: T -> T?, None -> T?, T? -> T?, x ? d -> T
     flow = draw(st.sampled_from(["t_into_opt", "none_into_opt", "opt_into_opt", "default_into_t"]))
-    c = draw(st.sampled_from(["init", "assign", "field_assign", "fun_arg", "method_arg", "ctor_arg", "return", "return_explicit"]))
+    c = draw(st.sampled_from(["init", "assign", "field_assign", "fun_arg", "method_arg", "ctor_arg", "return", "return_explicit"]
+                             + EXTRA_CONSUMERS))
     if flow == "t_into_opt":
         v = draw(st.sampled_from(TVAL[t]))
         defs, stmts = consumer(draw, c, t, v, True)
@@ -172,7 +201,7 @@ def _case(draw):
     else:
         d = draw(st.sampled_from(TVAL[t]))
         v = "%s ? %s" % (NVAR[t], d)
-        if c in ("fun_arg", "method_arg", "ctor_arg"):
+        if c in ("fun_arg", "method_arg", "ctor_arg") or c.endswith("_defaulted"):
             v = "(%s)" % v
         defs, stmts = consumer(draw, c, t, v, False)
     return {"src": WORLD + "\n".join(defs + sites.place(position, stmts)) + "\n", "direction": "accept", "consumer": c,
